@@ -751,7 +751,8 @@ fn date(i: &str) -> IResult<&str, builder::Term, Error> {
 }
 
 fn parse_bytes(i: &str) -> IResult<&str, Vec<u8>, Error> {
-    preceded(tag("hex:"), parse_hex)(i)
+    // `hex:` alone is the empty byte array (this is how it is printed)
+    preceded(tag("hex:"), alt((parse_hex, value(Vec::new(), tag("")))))(i)
 }
 
 fn parse_hex(i: &str) -> IResult<&str, Vec<u8>, Error> {
